@@ -37,7 +37,7 @@ Definition out_world (w : fsw) : bytes :=
 Definition out_ores {A} (f : A -> bytes) (r : ores A) : bytes :=
   match r with
   | OOk a => lit "OK:" ++ f a
-  | OErr e => lit "OSERR:" ++ out_Z e
+  | OErr e => lit "OSERR:" ++ out_Z (os_errno e) ++ lit ":" ++ os_class e
   | OExn x => out_exn x
   end.
 Definition out_unit (_ : unit) : bytes := [].
@@ -45,8 +45,11 @@ Definition out_unit (_ : unit) : bytes := [].
 Definition out_again (r2 : ores unit) (w w2 : fsw) : bytes :=
   lit " AGAIN=" ++ out_ores out_unit r2 ++ lit "," ++ (if beq (out_world w) (out_world w2) then lit "same" else lit "changed").
 
-(* -1: the call succeeds; -2: it raises ValueError; otherwise OSError with that errno *)
-Definition inj_of (z : Z) : ores unit := if z =? -1 then OOk tt else if z <? 0 then OExn ValueError else OErr z.
+(* -1: the call succeeds; -2: it raises ValueError; otherwise an OSError instance with that errno:
+   of the given class, or (no class given) of the class CPython derives from the errno *)
+Definition inj_of (z : Z) (cls : bytes) : ores unit :=
+  if z =? -1 then OOk tt else if z <? 0 then OExn ValueError
+  else match cls with [] => OErr (std_oserror z) | _ => OErr (mk_oserror cls z) end.
 (* per-call limit of write: 0 = the kernel's (MAX_RW_COUNT), otherwise the injected short-write limit *)
 Definition write_limit (a : bytes) : Z := let z := arg_Z a in if z <=? 0 then max_rw_count else z.
 
@@ -57,14 +60,14 @@ Definition run (args : list bytes) : bytes :=
     let '(w2, r2) := ensure_tree fs_runtime (nth_arg args 1) (arg_Z (nth_arg args 2)) w in
     out_ores out_unit r ++ lit " " ++ out_world w ++ out_again r2 w w2
   else if is_op "ensure_tree_inj" op then
-    let '(_, r) := ensure_tree (script_rt (inj_of (arg_Z (nth_arg args 1))) (arg_bool (nth_arg args 2))) (lit "p") default_mode tt in
+    let '(_, r) := ensure_tree (script_rt (inj_of (arg_Z (nth_arg args 1)) (nth_arg args 3)) (arg_bool (nth_arg args 2))) (lit "p") default_mode tt in
     out_ores out_unit r
   else if is_op "delete_if_exists" op then
     let '(w, r) := delete_if_exists (nth_arg args 1) (rt_unlink fs_runtime) (build_world (skipn 2 args)) in
     let '(w2, r2) := delete_if_exists (nth_arg args 1) (rt_unlink fs_runtime) w in
     out_ores out_unit r ++ lit " " ++ out_world w ++ out_again r2 w w2
   else if is_op "delete_inj" op then
-    let rt := script_rt (inj_of (arg_Z (nth_arg args 1))) false in
+    let rt := script_rt (inj_of (arg_Z (nth_arg args 1)) (nth_arg args 2)) false in
     let '(_, r) := delete_if_exists (lit "p") (rt_unlink rt) tt in
     out_ores out_unit r
   else if is_op "write_to_tempfile" op then
